@@ -288,9 +288,12 @@ VARIANTS = [
                        "class HumanMessageSerializer:\n"},
                {"file": FMT, "old": "        printer = HippoPrettyPrinter(width=100)\n        val = printer.pformat(val)\n        newstr = \"\"\n",
                 "new": "        return _wrapped(val)\n        printer = HippoPrettyPrinter(width=100)\n        val = printer.pformat(val)\n        newstr = \"\"\n"}]},
-    {"name": "R7 Material registered through an adapter serializer while a switch depends on it", "file": TEMPLATES, "expect": "C11.R7",
-     "old": "@se.enum_field_serializer(\"ViewerEffect\", \"Effect\", \"Type\")\n",
-     "new": "@se.subfield_serializer(\"ViewerEffect\", \"Effect\", \"TypeData\")\n"},
+    {"name": "R7 ObjectUpdate PCode packed through an identity adapter serializer", "expect": "C11.R7",
+     "edits": [{"file": TEMPLATES, "old": "@se.enum_field_serializer(\"ObjectUpdate\", \"ObjectData\", \"PCode\")\n", "new": ""},
+               {"file": TEMPLATES, "old": "@se.subfield_serializer(\"ObjectUpdate\", \"ObjectData\", \"State\")\n",
+                "new": "@se.subfield_serializer(\"ObjectUpdate\", \"ObjectData\", \"PCode\")\n"
+                       "class _PCodeByte(se.AdapterSubfieldSerializer):\n    ADAPTER = se.IdentityAdapter()\n\n\n"
+                       "@se.subfield_serializer(\"ObjectUpdate\", \"ObjectData\", \"State\")\n"}]},
     {"name": "R7 parser no longer resolves enum serializers first", "file": FMT, "expect": "C11.R7",
      "old": "            standalone = (se.IntEnumSubfieldSerializer, se.IntFlagSubfieldSerializer)\n",
      "new": "            standalone = (se.IntFlagSubfieldSerializer,)\n"},
